@@ -71,6 +71,9 @@ fixed("C12", "3737ee0", "parseTimeStamp stored a local_date_time value into d.ti
 fixed("C18", "15f6c57", "SegmentFile.add stored SegmentLapMsg without calling expandComponents (ActivityFile does): enhanced speed/altitude of a segment file's lap stayed invalid",
       "C18-R1-expansion-called", "SegmentFile/SegmentLapMsg")
 
+fixed("C05", "52b7652", "Encode never stored file.Header.CRC (Header.MarshalBinary has a value receiver, the CRC it computes was lost) although its documentation promises the update",
+      "C05-R1-post-state", "file.Header.CRC")
+
 json.dump({
     "comment": "Genuine defects of tormoder/fit. status=known: recorded, not repaired (reason in DESIGN.md section 1); the check prints KNOWN-FINDING for exactly that (property, rule, key). status=fixed: repaired by the named fix: commit in /repo; suppresses nothing. This file is never written at run time.",
     "findings": F,
